@@ -6,6 +6,9 @@ import Driver.SflOracle
 import Driver.Symbase
 import Driver.SplitNeutral
 import Driver.Summary
+import Driver.Pages
+import Driver.Fmv
+import Driver.Etrade
 open Driver
 
 def runLedger (c : Case) : Res :=
@@ -32,6 +35,9 @@ def dispatch (c : Case) : Res :=
   | "splitneutral" => runSplitneutral c
   | "summary" => runSummary c
   | "symparse" => runSymparse c
+  | "pages" => runPages c
+  | "fmv" => runFmv c
+  | "etrade" => runEtrade c
   | f => { verdict := "BADCASE", msg := s!"unknown family {f}" }
 
 def main : IO Unit := do
